@@ -37,6 +37,22 @@ PROPS = {
             'technique': 'Verus contracts on every parse-path function of the real crate (panic-freedom, termination, cursor discipline, allocation bound) + loop-free Kani harnesses for the header-peek functions',
             'text': 'proof for all inputs: every index, slice range, arithmetic operation, unwrap and loop of the parse path is a discharged Verus obligation on the real function bodies (in-situ annotation); header peeks are a complete loop-free CBMC proof over all buffers of length 0..=13',
             'note': VERUS_NOTE + '; ' + KANI_NOTE + '; the allocator and Vec growth policy are not modelled (allocation is bounded through with_capacity arguments and one push per consumed byte)'},
+    'C02': {'verus': True, 'kani': ['header_write_layout'],
+            'technique': 'Verus: encoder/decoder pair contracts per wire element (ghost wf_enc / wf_dec from the RFCs) on the real write_to / parse bodies, Packet::write_to proved to emit header + sections; round-trip lemmas for names; Kani for the header word',
+            'text': 'proof per element: every write_to emits exactly wf_enc, every parse accepts exactly what wf_dec describes; the name round-trip lemma (decode(pre+encode(n)+post) == n) is proved; the per-type and packet-level composition decode(encode(p)) == p is stated over these contracts but not yet machine-checked as one lemma',
+            'note': VERUS_NOTE + '; ' + KANI_NOTE + '; Name::len / OPT::len / SVCB::len and the writers of TXT SVCB NSEC IPSECKEY NSAP are assumed (external_body) in this version'},
+    'C04': {'verus': True, 'kani': ['header_write_layout'],
+            'technique': 'Verus: len() == |wf_enc| per type, RDLENGTH = |rdata encoding|, header counts = section lengths (+1 for OPT), all against an abstract std::io::Write contract (emission log + positional buffer), so any writer kind gives the same bytes',
+            'text': 'proof for all packets within DNS size limits and every writer obeying the Write contract: Packet::write_to emits hdr_enc(counts) + sections (+ one OPT record) and nothing else; ResourceRecord::write_to writes RDLENGTH = |RDATA|; errors of the writer propagate through `?` without panics. The compressed writer (seek back-patch) is not yet under contract',
+            'note': VERUS_NOTE + '; write_compressed_to and build_bytes_vec* are not yet verified; len() of types listed as external_body in the evidence is assumed'},
+    'C05': {'verus': True, 'kani': [],
+            'technique': 'Verus: Packet::parse / parse_section / ResourceRecord::parse / RData::parse / Question::parse proved against an RFC 1035 envelope spec (chain of entries, RDLENGTH-delimited RDATA, typed content decoded from the message truncated at the RDATA end)',
+            'text': 'proof for all byte strings: Ok(p) implies the sections are back-to-back chains of entries starting at offset 12 with the header counts, each record spans name + 10 + RDLENGTH bytes, type/class/ttl/cache-flush are those of the entry, and the cursor after each record is its RDATA end',
+            'note': VERUS_NOTE + '; header_buffer count readers are assumed in Verus with the statements proved by the Kani harnesses of C01/C08'},
+    'C09': {'verus': True, 'kani': ['opt_ttl_layout', 'opt_ttl_parse_side'],
+            'technique': 'Verus: OPT::parse / write_to against a code-length-value list spec, encode_ttl / extract_rcode_from_ttl against the RFC 6891 TTL layout, ARCOUNT and single OPT record in Packet::write_to, OPT lifting in Packet::parse; Kani loop-free harnesses for the TTL word',
+            'text': 'proof: TTL = ext-rcode<<24 | version<<16, CLASS slot = UDP size, options are exactly the code/length/value triples, the OPT record is written once and counted in ARCOUNT, parsing removes the first OPT record and recombines the 12-bit rcode (for header nibbles that map to named codes)',
+            'note': VERUS_NOTE + '; ' + KANI_NOTE + '; Header::opt_rr (closure + array-to-Name conversion) is assumed with the contract checked by inspection; OPT::len assumed'},
     'C06': {'verus': True, 'kani': [],
             'technique': 'Verus: Name::parse proved equivalent to an RFC 1035 4.1.4 spec decoder (loop invariant + lexicographic measure)',
             'text': 'proof for all byte strings and start offsets: Ok(n) iff the spec decoder yields exactly n\'s labels, cursor = start + in-place length, Err iff the spec decoder fails',
